@@ -242,7 +242,8 @@ def pCtlEv (s : String) : Option CtlEv :=
   | _ => none
 
 def pKind (s : String) : Option Kind :=
-  if s = "tcp" then some .tcp else if s = "rtu" then some .rtu else none
+  -- "ser": the serial RTU server – the RTU codec and the same loop
+  if s = "tcp" then some .tcp else if s = "rtu" ∨ s = "ser" then some .rtu else none
 
 def pBudget (s : String) : Option Budget :=
   if s = "-" then some none else s.toNat?.map some
